@@ -126,7 +126,7 @@ class SymEval(object):
       return ('tuple',) + tuple(self.ev(e, env, fn) for e in n.elts)
     if isinstance(n, ast.List):
       return ('list',) + tuple(self.ev(e, env, fn) for e in n.elts)
-    if isinstance(n, ast.Dict) and n.keys and all(isinstance(k, ast.Constant) for k in n.keys):
+    if isinstance(n, ast.Dict) and all(isinstance(k, ast.Constant) for k in n.keys):
       return ('dict',) + tuple(('item', ('const', k.value), self.ev(v, env, fn)) for k, v in zip(n.keys, n.values))
     if isinstance(n, ast.Attribute):
       return ('attr', self.ev(n.value, env, fn), n.attr)
